@@ -710,6 +710,31 @@ def c14(tier):
             "util/econftool.c replace_str (fixed 1024-byte buffer that cannot be scaled) is not covered"],
             "explanation": "every field kind at lengths around the (scaled) stdio buffer size through read, plain and extended getters, write and read-back, with CBMC's bounds checks"}
 
+def c19(tier):
+    if tier == "quick":
+        hist = ["-.x", "-.x -.y", "A.x", "A.x -.y", "-.x A.y B.x", "A.x B.y A.y", "B.x A.x -.x"]
+    else:
+        import itertools
+        hist = []
+        for n in (1, 2, 3):
+            for secs in itertools.product("-AB", repeat=n):
+                for keys in itertools.product("xy", repeat=n):
+                    hist.append(" ".join("%s.%s" % (a, b) for a, b in zip(secs, keys)))
+    insts = []
+    for h in hist:
+        n = len(h.split())
+        d = {"STRCAP": 16, "VCAP": 10, "VFS_CONTENT": 6, "VFS_MAXNODES": 3, "VFS_OUTCAP": 96, "FMTCAP": 40, "HIST": '"%s"' % h.replace(" ", ","), "NOPS": n, "V_PATH_MAX": 32}
+        inst = Instance("tool-%s" % h.replace(" ", "_").replace(".", ""), "x_tool.c", d, unwind=17,
+                        unwindset=lib_unwinds(n + 1, 4, lines=2, alloc=9) + [(r"x_tool\.c", r"i < NOPS|g < no|t < 2|\*s; s\+\+|q < VFS_OUTCAP", 98), (r"econftool\.c", r"g <= groupCount", 5), (r"econftool\.c", r"k < key_count", 4),
+                                   (r"econftool\.c", r"values\[v\]", 4), (r"libeconf_ext\.c", r"strsep", 4), (r"vfs_cbmc\.c", r"i < l;", 42), (r"builtin-library-strncpy", r"", 34)],
+                        timeout=400, mem_gb=8, leak_check=False, functions="util/econftool.c: pr_key_file, econf_read, print_error; econf_getGroups, econf_getKeys, econf_getExtValue",
+                        bounds="object built by the setter history %s (concrete values, one of them two lines); single file good/malformed symbolic for the syntax check" % h, expect_reach=["end"])
+        inst.functional_only = True
+        insts.append(inst)
+    return {"instances": insts, "assumptions": COMMON_ASSUME + ["the tool's own functions are driven directly (pr_key_file for show/cat, econf_read for syntax); argument parsing in main(), edit and revert, and the process exit status as seen by a shell are outside the check",
+            "agreement with what an application gets: the tool calls econf_readFile / econf_readDirs / econf_readDirsHistory, which are the subject of C01/C12", "objects are concrete (printing depends on string lengths)"],
+            "explanation": "econftool's printing and syntax-status functions executed by CBMC on enumerated objects; stdout captured and compared with the expected listing"}
+
 def c13(tier):
     seed = int(__import__("os").environ.get("VERIF_SEED", "0") or 0)
     insts = conv_family(tier, seed, err=True, sysl=False, per_class=3 if tier == "quick" else 14, tag="err", defs=(), delims=["eq", "coleq", "sp", "speq"] if tier == "quick" else None,
@@ -729,7 +754,7 @@ def c20(tier):
             "uninitialised reads: fresh heap memory has arbitrary contents in CBMC, so a read of a never-written field makes the harness assertions on it fail"],
             "explanation": "every early-return path of the layered read with a failure injected at a chosen consulted file, plus API histories, under CBMC's leak / double-free / use-after-free checks"}
 
-REGISTRY = {"C14": c14, "C15": c15, "C07": c07, "C05": c05, "C17": c17, "C06": c06, "C12": c12, "C13": c13, "C16": c16, "C20": c20, "C01": c01, "C02": c02, "C10": c10, "C11": c11, "C03": c03, "C04": c04, "C08": c08, "C09": c09}
+REGISTRY = {"C19": c19, "C14": c14, "C15": c15, "C07": c07, "C05": c05, "C17": c17, "C06": c06, "C12": c12, "C13": c13, "C16": c16, "C20": c20, "C01": c01, "C02": c02, "C10": c10, "C11": c11, "C03": c03, "C04": c04, "C08": c08, "C09": c09}
 
 def get(prop, tier):
     if prop not in REGISTRY:
